@@ -171,6 +171,11 @@ for _k, _v in EXTRA3.items():
     EXTRA[_k] = EXTRA[_k] + ' Rounds 7-9: ' + _v
 
 EXTRA4 = {
+    'C01': "a filter dict passed together with a keyword filter, two functions in one call with the reader listed first.",
+    'C05': "upper-case business-day bumps through Calendar.dt_bump, answers outside the calendar range (refused or right, never wrong).",
+    'C09': "numpy integer day counts.",
+    'C11': "NaN keys carried by shared and fresh objects in one column, one unpivot spec dict used twice.",
+    'C15': "sums started from an empty Dict, suite ignore_lists (list leaves, ignore lists whose only element is a list).",
     'C04': "day overflow combined with time-of-day parts, numeric dd-mm-yyyy / mm-dd-yyyy strings joined to the time by 'T' (incl. the rejections).",
     'C06': "a predicate whose parameters come in another order than the columns, patterns compiled with re.IGNORECASE.",
     'C10': "compound bumps with a zero business-day piece ('1w0b', '1m0b', ...).",
